@@ -5,6 +5,11 @@ helpers they share (frame sampling + label indexing), on the exact lattice (time
 on a decimal stream with the default 0.1 s frame, and on ALL pairs of restricted-growth label sequences of
 small length realised as unit-frame segments (exhaustive in the thorough tier).
 
+Regeneration: `_contingency_matrix`, `_adjusted_rand_index`, the bodies of `pairwise` / `rand_index` / `ari`, `_entropy`,
+`_mutual_info_score`, `_normalized_mutual_info_score`, `nce`, `vmeasure` are re-translated from segment.py on every run
+(translator part `segindex`) and proved equal to the hand model (Props/C16_GenIndex.lean); suite `gen_segindex` runs the
+GENERATED definitions (driver op `gen.segindex`) against the real private / public functions on label sequences.
+
 Oracle (the property itself on the real code): an independent computation of every score from the two
 frame-label sequences (own sampler, collections.Counter, fractions, math.log / math.comb), and the stated
 identities (vmeasure == nce(marginal=True), case-insensitivity, MI symmetry, V = harmonic mean, ARI = 1 on
@@ -39,6 +44,13 @@ ASSUMPTIONS = [
     "max(H)-EMI at rounding level, i.e. both partitions all-singletons) are compared through numerator and "
     "tolerance 1e-9 + 4e-16/|denominator| (DESIGN 2.3); they are not 'valid' inputs of the property",
     "both annotations have exactly equal end times (np.allclose-equal but different ends are outside the model)",
+    "translator segindex + run-time library MirModel/PyMat.lean: the reading of NumPy/SciPy primitives (np.unique = sorted "
+    "distinct values, coo_matrix(...).toarray() sums duplicates and raises ValueError on unequal index lengths, a NumPy "
+    "scalar never raises on '/', Python floats raise ZeroDivisionError, comb(n, 2, exact=1) = n(n-1)/2, integer-valued "
+    "float arrays are exact below 2^53, np.log2 = log/log 2, no broadcasting between agreement matrices of different "
+    "size) is assumed, and exercised by suite gen_segindex on every run; validate_structure, util.intervals_to_samples, "
+    "util.index_labels and util.f_measure on NumPy scalars are externs bound to the hand model (the last one tied to the "
+    "translated util.f_measure on finite arguments by f_measure_np_finite)",
     "AMI's expected-MI term: the model's transliterated loop is proved equal (over the reals) to the hypergeometric "
     "expectation with binomial coefficients (emi_textbook); the oracle re-computes that expectation independently "
     "from exact hypergeometric probabilities",
@@ -663,7 +675,7 @@ def suite_gen_segindex(rng, tier, shard, nshards):
         if i % nshards == shard:
             yield c
     # random (every shard draws its own)
-    for _ in range(60 if tier == "quick" else 1500):
+    for _ in range(60 if tier == "quick" else 500):
         n = rng.choice([2, 3, 5, 8, 8, 13, 21, 40])
         ka, kb = rng.randint(1, min(n, 6)), rng.randint(1, min(n, 6))
         pa, pb = rng.sample(range(0, 50), ka), rng.sample(range(0, 50), kb)     # arbitrary index values
